@@ -64,6 +64,7 @@ struct Outcome {
     lag_skips: u64,
     pending_polls: u64,
     wakeups_checked: u64,
+    states_gone_checked: u64,
 }
 
 /// Which of two wake flags belongs to the context of the latest poll.
@@ -107,6 +108,7 @@ macro_rules! drive_state {
         let mut fail: Option<(String, String)> = None;
         let mut pending_polls = 0u64;
         let mut wakeups_checked = 0u64;
+        let mut states_gone_checked = 0u64;
         let noop = Waker::from(Arc::new(Flag(AtomicBool::new(false))));
 
         let mut poll_sub = |i: usize, subs: &mut Vec<Sub>, logs: &mut Vec<SubLog>, sets: &Vec<u64>, states_alive: bool, fail: &mut Option<(String, String)>, pending_polls: &mut u64| -> bool {
@@ -260,7 +262,12 @@ macro_rules! drive_state {
                 }
                 n += 1;
             }
-            if alive && fail.is_none() {
+            // (also when every clone of the state is gone by now: a value that was set while the
+            // subscriber existed is still owed to it - "always eventually the most recent")
+            if fail.is_none() {
+                if !alive {
+                    states_gone_checked += 1;
+                }
                 let sets_after = sets.len() - logs[i].created_after_sets;
                 if sets_after > 0 {
                     let last = logs[i].seen.iter().rev().find_map(|x| if let Seen::Item(v, _) = x { Some(*v) } else { None });
@@ -278,7 +285,7 @@ macro_rules! drive_state {
             })
             .sum();
         drop(states);
-        Outcome { subs: logs, fail, lag_skips, pending_polls, wakeups_checked }
+        Outcome { subs: logs, fail, lag_skips, pending_polls, wakeups_checked, states_gone_checked }
     }};
 }
 
@@ -470,6 +477,7 @@ impl Prop for Notified {
             w.stat_add("items_skipped_by_lagging_subscribers", a.lag_skips + b.lag_skips);
             w.stat_add("polls_that_returned_pending", a.pending_polls + b.pending_polls);
             w.stat_add("wakeups_checked_after_set", a.wakeups_checked + b.wakeups_checked);
+            w.stat_add("subscribers_drained_after_every_state_clone_was_dropped", a.states_gone_checked + b.states_gone_checked);
             if a.lag_skips + b.lag_skips > 0 || a.pending_polls > 0 {
                 w.nontrivial = true;
             }
